@@ -53,7 +53,7 @@ class Codec:
         key = (lang, which, name, for_zero)
         if key not in self._paths:
             m = self.macro(lang, which, name)
-            self._paths[key] = j2text.render_paths(self.N, m.body, limit=4096, for_zero=for_zero)
+            self._paths[key] = j2text.render_paths(self.N, m.body, limit=4096, for_zero=for_zero, macros=self.ts.macros(self.tmpl(lang, which)))
         return self._paths[key]
 
     def text(self, lang, p: j2text.TPath) -> str:
